@@ -1,45 +1,91 @@
 """C04 - Var holds, copies, assigns and compares JSON-like values faithfully (spec/VarHeap.tla)."""
 import concurrent.futures as cf
 import os
+import re
 import subprocess
 import time
 import vlib
 
 META = {
-    "engine": "VarHeap.tla, Trace_VarHeap.tla",
-    "technique": "TLC exhaustive enumeration of VarHeap.tla histories (typed and Var-to-Var assignment incl. own descendants, "
-                 "construction from containers, operator[] auto-creation, <<, resize, clear, remove, extend, clone on shared "
-                 "container nodes) replayed transition-by-transition on real asl::Var values under ASan+LSan with the canonical "
-                 "tree, sharing, reference counts, accessors, conversions and the == matrix compared; recorded random executions "
-                 "(depth 5, growth past the capacity steps) validated against the same spec actions",
+    "engine": "VarHeap.tla, VarApi.tla, Trace_VarHeap.tla",
+    "technique": "TLC exhaustive enumeration of VarHeap.tla / VarApi.tla histories (typed and Var-to-Var assignment incl. own descendants, "
+                 "construction from Array<Var>/Dic<Var>, from typed Array<T>/Dic<T>, from every C++ number type and from Var::Type, operator[] "
+                 "auto-creation, <<, resize, clear, remove, removeAt(i, n), extend with any argument, clone, and enumerations as multi-step "
+                 "processes interleaved with other calls, on shared container nodes) replayed transition-by-transition on real asl::Var values "
+                 "under ASan+LSan with the canonical tree, sharing, reference counts, accessors, conversions (scalar, Array<T>, Dic<T>), keyed "
+                 "read-only queries, == against every other root and against literals of every C++ type compared; enumerations are run with the "
+                 "library's foreach/foreach2 macros, range-based for and Var::Enumerator; recorded random executions (depth 5, growth past the "
+                 "capacity steps, enumerations with interleaved writes through sharing Vars) validated against the same spec actions",
     "design_ref": "DESIGN.md section 6, C04",
     "level_text": "TLC enumerates every history of public Var calls over the root variables and all slots reachable by paths up to the "
                   "configured bounds on VarHeap.tla (a heap of reference-counted array/object nodes; scalars NONE, NUL, BOOL, INT, "
-                  "NUMBER, FLOAT, strings on both sides of the 7/8-byte inline boundary) and checks the specification's own "
-                  "invariants (count = number of referencing slots, no reference to a released node, acyclic, keys ordered) and action "
-                  "properties (after a = b the target has the source's previous value, also when b is a descendant of a; a clone "
-                  "shares nothing; calls through one root leave unrelated roots unchanged). Every transition is replayed on real "
-                  "Var objects under ASan/LSan and every value of every root's tree is compared: type(), is(), length(), int/Long/"
-                  "float/double/bool/String conversions, toString(), ==/!= with literals, keys, has(), storage identity and "
-                  "reference counts of shared containers, and the pairwise ==/!= matrix. Recorded executions of the real Var are "
+                  "NUMBER, FLOAT, strings on both sides of the 7/8-byte inline boundary and numeric-looking texts) and on VarApi.tla, "
+                  "which adds over the same state: construction from Array<T>/Dic<T> (T = int, double, float, bool, String), from char/"
+                  "unsigned/long/unsigned long/Long/ULong and from Var::Type, extend() with a non-object argument, removeAt(i, n), the "
+                  "conversions back to Array<T>/Dic<T> with element type mismatches, has(k)/has(k, type)/operator()(k) and chains/read()/"
+                  "getp()/const operator[] (no auto-creation)/isArrayOf/Var | default, == against literals (INT/NUMBER/FLOAT and text "
+                  "lattice), and enumeration as a process (begin, one step per item in order - ascending keys for objects - reading the "
+                  "current value and optionally assigning through the reference, end or break) interleaved with every call that leaves "
+                  "the enumerated path and the item sets of its containers in place. TLC checks the specification's own invariants "
+                  "(count = number of referencing slots, no reference to a released node, acyclic, keys ordered, an open enumeration "
+                  "stands on its container) and action properties (after a = b the target has the source's previous value, also when b "
+                  "is a descendant of a; a clone shares nothing; calls through one root leave unrelated roots unchanged; a Var built "
+                  "from Array<T>/Dic<T> converts back to the same elements; visiting never changes the shape of the container) and, as "
+                  "ASSUMEs, the laws of the scalar domain (== symmetric, numeric across INT/NUMBER/FLOAT, equal scalars print and convert "
+                  "alike, number -> text -> number is the identity, atoi/atof prefix reading). Every transition is replayed on real Var "
+                  "objects under ASan/LSan and every value of every root's tree is compared: type(), is(), length(), int/unsigned/Long/"
+                  "ULong/float/double/bool/String conversions, toString()/string(), ==/!= with literals, keys, has(), contains(), storage "
+                  "identity and reference counts of shared containers, the pairwise ==/!= matrix, and for VarApi cases the wide "
+                  "observation listed above. Recorded executions of the real Var (calls, step-wise enumerations, accessor results) are "
                   "accepted by TLC as behaviours of the same actions.",
-    "level_note": "Bounded (constants in spec/MC_VarHeap_*.cfg); beyond them only the recorded random executions apply. Numbers are "
-                  "integers and halves (exactly representable); NaN, %g formatting of other doubles and numeric text parsing are not "
-                  "modelled. NONE == NONE is false in the implementation (an array with unset elements is not == to its own clone); "
-                  "the property speaks of values built from numbers, booleans, strings, arrays and objects, so comparisons that hinge "
-                  "on a NONE/NONE pair are left unspecified ('u') and not compared. Calls that would make a container contain itself "
-                  "(incl. x << x on an unset Var) and extend() with a non-object argument are outside the property and not generated. "
-                  "Open finding GrowWhileShared is excluded by a hazard predicate evaluated on the real rc()/cap(). Use-after-free, "
-                  "double destruction and leaks are observed by ASan/LSan on the generated executions, not decided by the model.",
+    "level_note": "Bounded (constants in spec/MC_VarHeap_*.cfg, spec/MC_VarApi_*.cfg); beyond them only the recorded random executions "
+                  "apply. Numbers are integers and halves (exactly representable); NaN (except (double)NUL), %g formatting of other "
+                  "doubles, values beyond 32 bits (the INT/NUMBER switch of Var(unsigned) at 2^31), exponents and non-C locales in "
+                  "numeric text are not modelled. The INT-or-NUMBER choice for char/unsigned/long/Long/ULong follows the implementation "
+                  "(the documentation only shows int and double). NONE == NONE is false in the implementation (an array with unset "
+                  "elements is not == to its own clone); the documentation defines == as equality of type and value and offers ok()/"
+                  "is(NONE) for unset Vars, nothing in the library compares unset Vars, so comparisons that hinge on a NONE/NONE pair "
+                  "stay unspecified ('u') and are not compared (NONE against anything else is specified: false). Also left open because "
+                  "the documentation is silent: const operator[] beyond the end of an array, removeAt(i, n) with a range partly outside "
+                  "the array, enumeration of Vars that are not arrays/objects, structural changes of a container during its own "
+                  "enumeration, operator[] with the wrong index kind, Var(Var::NUMBER/INT/BOOL/FLOAT) (value uninitialised), is(class), "
+                  "whether the Array<Var>/Dic<Var> a Var was built from stays shared. Calls that would make a container contain itself "
+                  "(incl. x << x on an unset Var) are outside the property and not generated. Var(Var&&)/operator=(Var&&) are compiled "
+                  "out (ASL_HAVE_MOVE is commented out in defs.h), so move semantics cannot be exercised on this build. Open finding "
+                  "GrowWhileShared is excluded by a hazard predicate evaluated on the real rc()/cap(). Use-after-free, double "
+                  "destruction and leaks are observed by ASan/LSan on the generated executions, not decided by the model.",
 }
 
 
-def _model_and_replay(ctx, rep, spec, cfg, label, workers, jobs):
+def _kinds(path):
+    """call kinds that occur in the emitted histories (vacuity check of the switchable VarApi alphabets)"""
+    seen = {}
+    rx = re.compile(r'"op":"(\w+)"')
+    with open(path) as f:
+        for ln in f:
+            h = ln[:ln.index('"exp"')] if '"exp"' in ln else ln
+            for m in rx.finditer(h):
+                seen[m.group(1)] = seen.get(m.group(1), 0) + 1
+    return seen
+
+
+def _model_and_replay(ctx, rep, spec, cfg, label, workers, jobs, need=()):
     cases = os.path.join(ctx.tmp, "%s.cases" % cfg)
-    ctx.model(spec, cfg, emit_to=cases, timeout=ctx.pick(900, 3400), xmx="8g", workers=workers)
-    m = ctx.replay(rep, cases, label=label, timeout=ctx.pick(900, 5400), jobs=jobs, args=["--batch", ctx.pick("500", "1000")])
+    # (four TLC runs at a time: modest heaps, the state spaces are small - the JVMs were OOM-killed with 8g each on a loaded machine)
+    xmx = ctx.pick("3g", "4g") if "VarApi" in cfg else ctx.pick("4g", "5g")
+    ctx.model(spec, cfg, emit_to=cases, timeout=ctx.pick(1200, 3400), xmx=xmx, workers=workers)
+    if need:
+        seen = _kinds(cases)
+        missing = [k for k in need if not seen.get(k)]
+        if missing:
+            raise vlib.HarnessError("%s: vacuous run, call kinds never generated: %s" % (cfg, ", ".join(missing)))
+        ctx.extra.setdefault("call_kinds", {})[cfg] = seen
+    m = ctx.replay(rep, cases, label=label, timeout=ctx.pick(900, 5400), jobs=jobs, args=["--batch", ctx.pick("500", "1000"), "--case-timeout-ms", "120000"])   # (20 s default: false alarms on a loaded machine)
     os.unlink(cases)
     return m
+
+
+ENUM = ("enumBegin", "enumNext", "enumEnd")
 
 
 def run(ctx):
@@ -48,21 +94,33 @@ def run(ctx):
     rec = vlib.build_harness(lib, "c04_record", ["c04_record.cpp"])
     tier = "quick" if ctx.quick else "thorough"
     ncpu = vlib.NCPU
-    # (two spellings of the module name: see checks/C02.py)
+    # (two spellings of a module name: vlib's TLC metadir is derived from it, see checks/C02.py)
     groups = [
-        [("VarHeap", "MC_VarHeap_%s" % tier, "R/VarHeap", max(2, ncpu // 2), ncpu)],
-        [("VarHeap.tla", "MC_VarHeap_scalars_%s" % tier, "R/VarHeap-scalars", max(2, ncpu // 5), max(2, ncpu // 4))],
+        [("VarHeap", "MC_VarHeap_%s" % tier, "R/VarHeap", max(2, ncpu // 2), ncpu, ())],
+        [("VarApi", "MC_VarApi_scalars_%s" % tier, "R/VarApi-scalars", max(2, ncpu // 5), max(2, ncpu // 3), ("assignC", "assignScalar", "assignKind")),
+         ("VarApi", "MC_VarApi_typed_%s" % tier, "R/VarApi-typed", max(2, ncpu // 5), max(2, ncpu // 3), ("assignTyped", "extend", "removeAt"))],
+        [("VarApi.tla", "MC_VarApi_enum_%s" % tier, "R/VarApi-enum", max(2, ncpu // 5), max(2, ncpu // 3), ENUM)],
     ]
     if not ctx.quick:
-        groups[1].append(("VarHeap.tla", "MC_VarHeap_deep1_thorough", "R/VarHeap-deep1", max(2, ncpu // 3), max(2, ncpu // 2)))
-        groups[1].append(("VarHeap.tla", "MC_VarHeap_deep_thorough", "R/VarHeap-deep", max(2, ncpu // 3), max(2, ncpu // 2)))
+        # (the deep configuration is the longest chain of the thorough tier: it gets its own lane)
+        groups.insert(1, [("VarHeap.tla", "MC_VarHeap_deep_thorough", "R/VarHeap-deep", max(2, ncpu // 3), max(2, ncpu // 2), ())])
+        groups[2].append(("VarHeap.tla", "MC_VarHeap_deep1_thorough", "R/VarHeap-deep1", max(2, ncpu // 3), max(2, ncpu // 2), ()))
 
     def group(g):
-        for spec, cfg, label, wk, jb in g:
-            _model_and_replay(ctx, rep, spec, cfg, label, wk, jb)
+        for spec, cfg, label, wk, jb, need in g:
+            _model_and_replay(ctx, rep, spec, cfg, label, wk, jb, need)
 
     def traces():
-        files = ctx.record(rec, ctx.pick(8, 32), ctx.pick(5000, 20000), "V/VarHeap")
+        count = ctx.pick(8, 32)
+        files = ctx.record(rec, count, ctx.pick(5000, 20000), "V/VarHeap")
+        kinds = {}
+        for f in files:
+            for k, n in _kinds(f).items():
+                kinds[k] = kinds.get(k, 0) + n
+        missing = [k for k in ENUM + ("assignTyped", "assignC", "assignKind", "facts") if not kinds.get(k)]
+        if missing and len(files) == count:     # (a recorder that died is a violation already)
+            raise vlib.HarnessError("V/VarHeap: recorded runs without events of kind: %s" % ", ".join(missing))
+        ctx.extra["recorded_kinds"] = kinds
         ctx.validate_traces("Trace_VarHeap", "Trace_VarHeap", files, label="V/VarHeap", timeout=ctx.pick(600, 3000),
                             parallel=max(2, ncpu // 2))
 
@@ -75,13 +133,17 @@ def run(ctx):
         for f in futs:
             f.result()
     ctx.exhaustive = True
-    ctx.rule = ("one case per transition of the VarHeap state graph (history of public Var calls + expected tree of every root with the "
-                "accessor results + == matrix); non-trivial = history with >= 2 calls; distinct = distinct case lines (hash)")
+    ctx.rule = ("one case per transition of the VarHeap / VarApi state graphs (history of public Var calls, enumeration steps included, "
+                "+ expected tree of every root with the accessor results, for VarApi the wide observation of every value, + == matrix); "
+                "non-trivial = history with >= 2 calls; distinct = distinct case lines (hash)")
     ctx.assumptions += [
-        "exhaustive within the constants of spec/MC_VarHeap_*_%s.cfg; beyond them only the recorded random executions apply" % tier,
+        "exhaustive within the constants of spec/MC_VarHeap_*_%s.cfg and spec/MC_VarApi_*_%s.cfg; beyond them only the recorded random executions apply" % (tier, tier),
         "memory errors/leaks are observed by ASan/LSan on the replayed and recorded executions, not decided by the model",
-        "numbers are integers and halves; strings: \"\", \"abcdefg\" (7 bytes, inline), \"abcdefgh\" (8 bytes, heap), \"12\", \"1.5xyzuvw\"",
+        "numbers are integers and halves; strings: \"\", \"abcdefg\" (7 bytes, inline), \"abcdefgh\" (8 bytes, heap), and the numeric-looking "
+        "texts \"12\", \"1.5xyzuvw\", \"1.5\", \"abc\", \" 7\", \"-2.5\" (C locale)",
         "comparisons whose result hinges on NONE == NONE are not compared (the implementation answers false)",
+        "enumeration configurations start from three preset shared containers built by a recorded prefix of calls; calls interleaved with "
+        "an enumeration are those that keep the enumerated path and the item sets of its containers (EnumStable)",
     ]
 
 
